@@ -223,7 +223,7 @@ Definition json_float_exact (k : Z) : bool :=
 (* ---------- the check ---------- *)
 Definition all_true (l : list bool) : bool := forallb (fun b => b) l.
 
-Definition check_C09 (kind : string) (input output : J) : verdict :=
+Definition check_main (kind : string) (input output : J) : verdict :=
   if String.eqb kind "jl" then
     match input, output with
     | JL [JL items; JI per; JI _; JI _],
@@ -432,3 +432,12 @@ Definition check_C09 (kind : string) (input output : J) : verdict :=
     | _, _ => malformed
     end
   else malformed.
+
+(* a panic of the code under test (or an Err where the harness unwraps) in a place where the model
+   has no failure at all is a disagreement and a failed property instance, not a malformed case *)
+Definition is_panic (o : J) : bool := match o with JL [t] => jtag_is "panic" t | _ => false end.
+Definition known_kind (k : string) : bool :=
+  existsb (String.eqb k) ["jl"; "js"; "jw"; "cw"; "cs"; "ps"; "gl"; "jf"]%string.
+Definition check_C09 (kind : string) (input output : J) : verdict :=
+  let v := check_main kind input output in
+  if v_malformed v && is_panic output && known_kind kind then ok_verdict false false else v.
